@@ -116,6 +116,8 @@ type Net struct {
 	stop     context.CancelFunc
 	Users    []*ledger.Actor
 	Genesis  accountant.Vertex
+	// OnAddLeaf, when set, runs inside a node's gossip handler right before the vertex is handed to its ledger
+	OnAddLeaf func(node int, v *accountant.Vertex)
 }
 
 // recAccounter wraps the book with the event log (the `accounter` dependency of the gossiper).
@@ -129,6 +131,9 @@ func (r *recAccounter) CreateGenesis(subject string, spc spice.Melange, data []b
 	return r.b.CreateGenesis(subject, spc, data, publicAddress)
 }
 func (r *recAccounter) AddLeaf(ctx context.Context, leaf *accountant.Vertex) error {
+	if f := r.n.OnAddLeaf; f != nil {
+		f(r.idx, leaf)
+	}
 	err := r.b.AddLeaf(ctx, leaf)
 	r.n.logEv(Event{Node: r.idx, Kind: "addleaf", Item: leaf.Hash, ItemK: "vrx", OK: err == nil, Err: errS(err), Via: callerPath()})
 	return err
@@ -525,6 +530,17 @@ func Build(k int, adj [][]int, adversary int) (*Net, error) {
 }
 
 func nctx(ctx context.Context) context.Context { return ctx }
+
+// Connect adds the peer table entries of a new edge i-j (as Announce / Discover do when a node joins).
+func (n *Net) Connect(i, j int) {
+	for _, p := range [][2]int{{i, j}, {j, i}} {
+		a, b := p[0], p[1]
+		if n.Nodes[a].Adversary {
+			continue
+		}
+		n.Nodes[a].G.SetPeer(n.Nodes[b].Actor.Addr, "node-"+n.Nodes[b].Name, &stub{n: n, from: a, to: b})
+	}
+}
 
 // Close stops the loops and releases the books and caches.
 func (n *Net) Close() {
